@@ -151,6 +151,11 @@ pub fn state_classes() -> Vec<(String, Vec<Step>)> {
     let mut reorged = with_block.clone();
     reorged.push(Step::Mine(2));
     reorged.push(Step::Reorg(RTarget::Back(1)));
+    // a parked transaction that the drain loop will find expired: parked while block N was open, N .. N+9
+    // finalised (the expiry at finalise keeps it one block longer than the drain accepts it)
+    let mut expiring = with_block.clone();
+    expiring.extend(block(vec![TxSpec::Transact { signer: 0, nonce: 1, tgt: Tgt::s(), data: vec![6, 0], len: DEFAULT_LEN }]));
+    expiring.push(Step::Mine(P_BLOCKS - 1));
     vec![
         ("empty".into(), vec![]),
         ("initialised".into(), with_block),
@@ -158,5 +163,6 @@ pub fn state_classes() -> Vec<(String, Vec<Step>)> {
         ("pool-non-empty".into(), pool),
         ("committed".into(), committed),
         ("after-reorg".into(), reorged),
+        ("pool-expiring".into(), expiring),
     ]
 }
